@@ -307,8 +307,29 @@ func (nd *NodeDiff) Sort() {
 	}
 }
 
+// sortNode returns the node that is used to order nd. Unlike LeftNode it never
+// modifies the nodes that were compared: when the children are needed (to find
+// the date of an event) they are collected on a shallow copy.
+func (nd *NodeDiff) sortNode() Node {
+	n := nd.Left
+	if IsNil(n) {
+		n = nd.Right
+	}
+
+	if _, ok := n.(Yearer); !ok || len(nd.Children) == 0 {
+		return n
+	}
+
+	n = n.ShallowCopy()
+	for _, child := range nd.Children {
+		n.AddNode(child.sortNode())
+	}
+
+	return n
+}
+
 func (nd *NodeDiff) isLessThan(nd2 *NodeDiff) bool {
-	left, right := nd.LeftNode(), nd2.LeftNode()
+	left, right := nd.sortNode(), nd2.sortNode()
 
 	if left.Tag().sortValue != right.Tag().sortValue {
 		return left.Tag().sortValue < right.Tag().sortValue
